@@ -1009,6 +1009,68 @@ impl std::fmt::Display for Game {
     }
 }
 
+/// Raw projection of the game for the verification harness
+/// (only with `--cfg daniel729_chess_verif`).
+#[cfg(daniel729_chess_verif)]
+#[allow(dead_code)]
+pub struct VerifSnapshot {
+    /// FEN letter of the piece on square `row * 8 + col`, or `b'.'`
+    pub board: [u8; 64],
+    pub white_to_move: bool,
+    pub white_king_castling: bool,
+    pub white_queen_castling: bool,
+    pub black_king_castling: bool,
+    pub black_queen_castling: bool,
+    pub en_passant: i8,
+    pub len: usize,
+    pub king_squares: [usize; 2],
+    pub hash: u64,
+    pub score: Score,
+    pub endgame_phase: bool,
+    pub endgame_king_table: bool,
+    pub past_scores: [Score; 64],
+    pub past_hashes: [u64; 64],
+    pub moves_recorded: usize,
+}
+
+#[cfg(daniel729_chess_verif)]
+#[allow(dead_code)]
+impl Game {
+    pub fn verif_snapshot(&self) -> VerifSnapshot {
+        let mut board = [b'.'; 64];
+        for (index, place) in self.board.iter().enumerate() {
+            if let Some(piece) = place {
+                board[index] = piece.as_char_ascii() as u8;
+            }
+        }
+        let state = self.state();
+        VerifSnapshot {
+            board,
+            white_to_move: self.current_player == Player::White,
+            white_king_castling: state.white_king_castling(),
+            white_queen_castling: state.white_queen_castling(),
+            black_king_castling: state.black_king_castling(),
+            black_queen_castling: state.black_queen_castling(),
+            en_passant: state.en_passant(),
+            len: self.state.len(),
+            king_squares: [
+                self.king_positions[0].as_usize(),
+                self.king_positions[1].as_usize(),
+            ],
+            hash: self.hash,
+            score: self.score,
+            endgame_phase: self.phase == GamePhase::Endgame,
+            endgame_king_table: std::ptr::eq(
+                self.piece_scores[PieceType::King as usize].get(),
+                &scores::KING_SCORES_END,
+            ),
+            past_scores: self.past_scores,
+            past_hashes: self.past_hashes,
+            moves_recorded: self.move_stack.len(),
+        }
+    }
+}
+
 #[cfg(test)]
 
 mod tests {
